@@ -20,7 +20,7 @@
 (* TLC's counterexample for the code as found (F15).                       *)
 (***************************************************************************)
 EXTENDS Raster, Json
-CONSTANTS MaxN, BoxStride, CatStride, PairStride, SameStride, ShapeFrom
+CONSTANTS MaxN, BoxStride, CatStride, PairStride, SameStride, AttrStride, ShapeFrom
 VARIABLES c, pc, k, rast, res
 vars == <<c, pc, k, rast, res>>
 
@@ -31,8 +31,14 @@ Spacings == <<[t0 |-> 2, ts |-> 2, f0 |-> 0, fs |-> 2],
 \* fu = Hz per frequency tick.  250: a frequency value never equals a time value (except 0).  1 (descriptor su = 1): one
 \* time tick is 1 s and one frequency tick 1 Hz, so EQUAL TICK NUMBERS ARE EQUAL NUMBERS on the two axes although they lie
 \* in different bins (every spacing has different origins/steps on the two axes) -- a lookup must depend on the axis.
+\* tstep / fstep = the 'step' ATTRIBUTE stored on the coordinate (<<>> = no such attribute), as opposed to the actual
+\* spacing ts / fs.  Descriptor sa: 0 both attributes truthful (a fresh range axis); 1 both STALE -- the template was
+\* subsampled by ts (fs) from an axis of step 1 and kept its attributes; 2 no step attributes; 3 time stale, frequency none.
+\* rasterize must follow the actual coordinates: Req (Raster!Bin) is defined on t0, ts, f0, fs only.
+StepAttr(sa, axis, s) == CASE sa = 0 -> <<s>>  [] sa = 1 -> <<1>>  [] sa = 2 -> <<>>  [] OTHER -> IF axis = "t" THEN <<1>> ELSE <<>>
 Tpl(d) == [T |-> d.T, F |-> d.F, order |-> d.order, t0 |-> Spacings[d.sp].t0, ts |-> Spacings[d.sp].ts,
-           f0 |-> Spacings[d.sp].f0, fs |-> Spacings[d.sp].fs, fu |-> IF d.su = 1 THEN 1 ELSE 250]
+           f0 |-> Spacings[d.sp].f0, fs |-> Spacings[d.sp].fs, fu |-> IF d.su = 1 THEN 1 ELSE 250,
+           tstep |-> StepAttr(d.sa, "t", Spacings[d.sp].ts), fstep |-> StepAttr(d.sa, "f", Spacings[d.sp].fs)]
 Lo(ax) == Max(0, ax.a - 1)                       \* one tick below the first coordinate (coordinates are >= 0)
 Hi(ax) == ax.a + ax.n * ax.s + 1                 \* one tick beyond the end of the last bin
 Ticks(ax) == Lo(ax)..Hi(ax)
@@ -43,9 +49,9 @@ Pick(ax, n) == LET w == Hi(ax) - Lo(ax) + 1
                IN  <<s, s + ((n \div w) % (Hi(ax) - s + 1))>>
 
 (* ---- descriptors (integers and strings only, so that they form one set) ---- *)
-TplD == [T : 1..MaxN, F : 1..MaxN, order : {"ft", "tf"}, sp : 1..3, su : {0}]
+TplD == [T : 1..MaxN, F : 1..MaxN, order : {"ft", "tf"}, sp : 1..3, su : {0}, sa : {0}]
 D(td, gk, a, b, d, e, g2, mm) ==
-    [T |-> td.T, F |-> td.F, order |-> td.order, sp |-> td.sp, su |-> 0, gk |-> gk, a |-> a, b |-> b, d |-> d, e |-> e, g2 |-> g2, mm |-> mm]
+    [T |-> td.T, F |-> td.F, order |-> td.order, sp |-> td.sp, su |-> 0, sa |-> 0, gk |-> gk, a |-> a, b |-> b, d |-> d, e |-> e, g2 |-> g2, mm |-> mm]
 Hash(x) == x.a * 31 + x.d * 17 + x.b * 7 + x.e * 3 + x.T + 2 * x.F + x.sp + (IF x.order = "ft" THEN 0 ELSE 5)
 \* boxes: every time pair with a varying frequency pair, and every frequency pair with a varying time pair
 BoxD(td) == LET ta == TAxis(Tpl(td))  fa == FAxis(Tpl(td)) IN
@@ -73,6 +79,9 @@ Descriptors ==
          \cup  {[x EXCEPT !.su = 1] : x \in {y \in bx : Coincide(y) /\ Hash(y) % SameStride = 0}}
          \cup  {[x EXCEPT !.su = 1, !.g2 = j] : x \in {y \in bx : Hash(y) % (2 * SameStride) = 1}, j \in {1, 3}}
          \cup  {[x EXCEPT !.su = 1] : x \in {y \in ct : Hash(y) % (2 * CatStride) = 0}}
+         \* stale or missing step attributes (sa = 1, 2, 3): boxes, and a few catalogue shapes
+         \cup  {[x EXCEPT !.sa = q] : x \in {y \in bx : Hash(y) % AttrStride = 3}, q \in 1..3}
+         \cup  {[x EXCEPT !.sa = q] : x \in {y \in ct : Hash(y) % (4 * CatStride) = 3}, q \in 1..2}
          : td \in TplD}
 
 (* ---- the call as the binder sees it ---- *)
